@@ -26,6 +26,16 @@ type c10World struct {
 	maxFaults  int
 	thorough   bool
 	c          *ev.Ctx
+	// hold mode: a caller keeps every value the shim returned; later operations must not change it
+	hold      bool
+	held      []c10Held
+	heldNames []string
+}
+
+type c10Held struct {
+	op   string
+	live [][]byte
+	snap [][]byte
 }
 
 var c10Bodies = map[string][]byte{
@@ -57,6 +67,9 @@ func newC10World(c *ev.Ctx, root string) bfs.World {
 	x := &c10World{d: &uagent.Keyring{}, dOK: true, maxFaults: 1, thorough: c.Thorough(), c: c}
 	if c.Thorough() {
 		x.maxFaults = 2
+	}
+	if len(parts) > 2 && parts[2] == "hold" {
+		x.hold, x.maxFaults = true, 0
 	}
 	prep := func(ua *uagent.Agent) {
 		ua.Raw = c10Raw
@@ -101,7 +114,11 @@ func (x *c10World) Init() (fs []bfs.Finding) {
 	return nil
 }
 func (x *c10World) Key() string {
-	return fmt.Sprintf("%s|D=%s|dOK=%v|faults=%d|newpanic=%v", x.w.baseKey(), x.d.Canon(nameOf), x.dOK, x.faultsUsed, x.w.newPan != "")
+	k := fmt.Sprintf("%s|D=%s|dOK=%v|faults=%d|newpanic=%v", x.w.baseKey(), x.d.Canon(nameOf), x.dOK, x.faultsUsed, x.w.newPan != "")
+	if x.hold {
+		k += "|held=" + strings.Join(x.heldNames, ";") // the values a caller still holds are part of the state
+	}
+	return k
 }
 
 func (x *c10World) Enabled() []bfs.Op {
@@ -113,6 +130,16 @@ func (x *c10World) Enabled() []bfs.Op {
 		for _, a := range args {
 			ops = append(ops, bfs.Op{Name: n, Arg: a})
 		}
+	}
+	if x.hold {
+		if max := map[bool]int{false: 3, true: 4}[x.thorough]; len(x.heldNames) >= max {
+			return nil // hold histories are not merged by state: bounded at 3 (thorough 4) operations
+		}
+		ops = append(ops, bfs.Op{Name: "List"})
+		o("AddHardCert", "h1")
+		o("Sign", "h1", "K1", "c.cur", "Krsa")
+		o("Forward", "unknown", "empty", "one", "ext", "big")
+		return ops
 	}
 	ops = append(ops, bfs.Op{Name: "List"}, bfs.Op{Name: "Signers"})
 	o("AddHardCert", "h1", "h2", "hrsa", "K2", "h3", "h1free")
@@ -149,6 +176,33 @@ func (x *c10World) wantListing() map[string]int {
 }
 
 func (x *c10World) Apply(op bfs.Op) (fs []bfs.Finding) {
+	x.w.last = opResult{}
+	fs = x.applyOp(op)
+	if !x.hold {
+		return
+	}
+	for _, h := range x.held {
+		for i := range h.live {
+			if !bytes.Equal(h.live[i], h.snap[i]) {
+				fs = append(fs, bfs.Finding{Key: "C10:returned-value-changed-later:" + strings.Fields(h.op)[0] + ":by:" + op.Name,
+					Desc: fmt.Sprintf("a value returned by %s (%d bytes) changed while the caller held it, during the later %s %s: results are not independent of later requests", h.op, len(h.snap[i]), op.Name, op.Arg)})
+				h.snap[i] = append([]byte{}, h.live[i]...)
+			}
+		}
+	}
+	h := c10Held{op: op.Name + " " + op.Arg, live: x.w.last.liveSlices()}
+	for _, l := range h.live {
+		h.snap = append(h.snap, append([]byte{}, l...))
+	}
+	x.held = append(x.held, h)
+	x.heldNames = append(x.heldNames, op.Name+" "+op.Arg)
+	if len(x.held) > 1 {
+		x.c.Nontrivial("hold|" + strings.Join(x.heldNames, ";"))
+	}
+	return
+}
+
+func (x *c10World) applyOp(op bfs.Op) (fs []bfs.Finding) {
 	add := func(key, desc string) { fs = append(fs, bfs.Finding{Key: "C10:" + key, Desc: desc}) }
 	w := x.w
 	if w.shim == nil || w.newPan != "" {
@@ -374,8 +428,14 @@ func (x *c10World) applyForward(op bfs.Op, memSetBefore map[string]int) (fs []bf
 		var ferr error
 		var m0, m1 runtime.MemStats
 		runtime.ReadMemStats(&m0)
+		sent := append([]byte{}, body...)
 		pn := ev.Guard(func() { resp, ferr = w.shim.Forward(body) })
 		runtime.ReadMemStats(&m1)
+		w.last = opResult{resp: resp, err: ferr}
+		if !bytes.Equal(sent, body) {
+			add("forward:caller-buffer-modified", fmt.Sprintf("Forward(%s) modified the caller's request buffer", op.Arg))
+			copy(body, sent)
+		}
 		if grew := m1.TotalAlloc - m0.TotalAlloc; grew > uint64(len(body))*4+(1<<20) {
 			add("forward:allocates-for-oversized-frame", fmt.Sprintf("Forward allocated %d bytes while relaying a %d-byte request (reply length prefix above 16 MiB)", grew, len(body)))
 		}
@@ -447,7 +507,7 @@ func (x *c10World) connDead() bool {
 
 func checkC10(c *ev.Ctx) {
 	setupFixtures()
-	c.Rule("E1 BFS over histories of the real shimagent.Server (constructed by shimagent.New through the dial seam): AddHardCert(6 incl. plain key, absent key, wire-form key), Add(3), Remove(4), RemoveAll, List, Signers, Sign(7 incl. RSA/ECDSA/Ed25519 and via Signers()), Forward(5 raw bodies, 0..64KiB), and a fault plan as part of the history: at most one (thorough: two) deviation {failure, close, empty, unknown type, truncated, oversized 16MiB+1, huge 2^32-16} at underlying request offset 0/1 (thorough 2) from any point, plus construction faults at request 0 in no-upstream mode; roots = both modes x 4 initial contents (two of them with expired certificates at non-adjacent / adjacent positions, so purging runs inside the operations) + 6 construction-fault roots. non-trivial = operation hit by a fault, or hardware-certificate add/sign/remove, or forward; distinct by (fault, operation, offset)")
+	c.Rule("E1 BFS over histories of the real shimagent.Server (constructed by shimagent.New through the dial seam): AddHardCert(6 incl. plain key, absent key, wire-form key), Add(3), Remove(4), RemoveAll, List, Signers, Sign(7 incl. RSA/ECDSA/Ed25519 and via Signers()), Forward(5 raw bodies, 0..64KiB), and a fault plan as part of the history: at most one (thorough: two) deviation {failure, close, empty, unknown type, truncated, oversized 16MiB+1, huge 2^32-16} at underlying request offset 0/1 (thorough 2) from any point, plus construction faults at request 0 in no-upstream mode; roots = both modes x 4 initial contents (two of them with expired certificates at non-adjacent / adjacent positions, so purging runs inside the operations) + 6 construction-fault roots + 2 hold roots (every sequence over 11 value-returning operations with the caller keeping every earlier result: List blobs, signatures and raw replies must not change afterwards). non-trivial = operation hit by a fault, or hardware-certificate add/sign/remove, or forward; distinct by (fault, operation, offset)")
 	c.Assume("well-formed replies of the wrong message type are excluded (they make x/crypto's agent client panic by design)", "pass-through is compared with the same calls made directly on a twin keyring until the first fault is consumed")
 	var roots []string
 	for _, mode := range []string{"up", "noup"} {
@@ -456,6 +516,8 @@ func checkC10(c *ev.Ctx) {
 	for _, k := range uagent.AllFaults {
 		roots = append(roots, "noup:K1,c.cur:fault="+k)
 	}
+	// hold roots: every sequence of value-returning operations, the caller keeping all earlier results
+	roots = append(roots, "up:K1,c.cur,Krsa:hold", "noup:K1,c.cur,Krsa:hold")
 	depth := 4
 	if c.Thorough() {
 		depth = 6
